@@ -13,6 +13,8 @@ import (
 	"time"
 )
 
+const maxFailedPerFunction = 12
+
 type solverRes struct {
 	solver string
 	ans    string // unsat | sat | unknown | timeout | error
@@ -77,6 +79,7 @@ func Discharge(obls []*Obligation, timeout time.Duration, workers int, keepDir s
 	defer os.RemoveAll(dir)
 	var wg sync.WaitGroup
 	var mu sync.Mutex
+	failed := map[string]int{}
 	ch := make(chan int)
 	for w := 0; w < workers; w++ {
 		wg.Add(1)
@@ -84,6 +87,17 @@ func Discharge(obls []*Obligation, timeout time.Duration, workers int, keepDir s
 			defer wg.Done()
 			for i := range ch {
 				o := obls[i]
+				// a function that already has many undecided obligations is reported as it is: the remaining ones
+				// are not attempted (a broken function otherwise costs a timeout per obligation)
+				mu.Lock()
+				skip := !o.Vacuity && failed[o.Fn] >= maxFailedPerFunction
+				mu.Unlock()
+				if skip {
+					o.Result = "undischarged"
+					o.Output = fmt.Sprintf("not attempted: %d obligations of this function are already undecided or refuted", maxFailedPerFunction)
+					o.Skipped = true
+					continue
+				}
 				file := filepath.Join(dir, fmt.Sprintf("o%d.smt2", i))
 				if err := os.WriteFile(file, []byte(o.Script), 0644); err != nil {
 					o.Result = "undischarged"
@@ -93,6 +107,9 @@ func Discharge(obls []*Obligation, timeout time.Duration, workers int, keepDir s
 				t := dischargeOne(o, file, timeout)
 				mu.Lock()
 				solverTime += t
+				if !o.Vacuity && o.Result != "proved" {
+					failed[o.Fn]++
+				}
 				mu.Unlock()
 				if keepDir != "" && (o.Result != "proved" || os.Getenv("GOVC_DUMPALL") != "") {
 					_ = os.MkdirAll(keepDir, 0755)
@@ -114,7 +131,7 @@ func Discharge(obls []*Obligation, timeout time.Duration, workers int, keepDir s
 	// obligation must not be reported because of contention. Re-run them with a tripled timeout, few at a time.
 	var retry []int
 	for i, o := range obls {
-		if o.Result == "undischarged" && !o.Vacuity && o.Script != "" && !strings.Contains(o.Output, "disagreement") {
+		if o.Result == "undischarged" && !o.Skipped && !o.Vacuity && o.Script != "" && !strings.Contains(o.Output, "disagreement") {
 			retry = append(retry, i)
 		}
 	}
